@@ -325,7 +325,7 @@ theorem endTx_committed {tx : Nat} {o : Vis} {rows : List Row} {j : Nat} {r : Ro
 /-- L1 + L2 of the design: every step either invokes `j`, or raises slack by at most one and
     only if it is an abandoning step, and keeps an on-track pass on track unless a unit of
     slack is used up (somebody else won the CAS, or the pass itself captured `j`) -/
-theorem live_step (cfg : Cfg) (s : State) (e : Step) (i j : Nat) (hs : Safe s)
+theorem live_step (cfg : Cfg) (s : State) (e : Step) (i j : Nat) (hs : Safe cfg s) (hgood : j ∉ cfg.bad)
     (hrow : ∃ r, s.rows[j]? = some r) :
     Prog i j s (step cfg s e) (if abandonStep s e then 1 else 0) := by
   have hext := step_ext cfg s e
@@ -384,9 +384,12 @@ theorem live_step (cfg : Cfg) (s : State) (e : Step) (i j : Nat) (hs : Safe s)
             · exact prog_same hrow hi rfl (fun r h => by rw [cas_other hcas hj]; exact h) rfl rfl
           · intro _
             exact prog_same hrow hi rfl (fun r h => h) rfl rfl
-        · -- invoke
-          intro _
-          exact prog_same hrow hi rfl (fun r h => h) rfl rfl
+        · -- prepare + invoke
+          split
+          · intro _
+            exact prog_same hrow hi rfl (fun r h => h) rfl rfl
+          · intro _
+            exact prog_same hrow hi rfl (fun r h => h) rfl rfl
         · -- delete
           rename_i hstage
           split
@@ -397,7 +400,9 @@ theorem live_step (cfg : Cfg) (s : State) (e : Step) (i j : Nat) (hs : Safe s)
               left
               have := (hsi.tasks t htm).2.2 hstage
               rw [htid] at this
-              exact this.mono hext
+              rcases this with h | h
+              · exact h.mono hext
+              · exact absurd h hgood
             · exact prog_same hrow hi rfl (fun r h => by rw [del_other hdel hj]; exact h) rfl rfl
           · intro _
             exact prog_same hrow hi rfl (fun r h => h) rfl rfl
@@ -455,10 +460,15 @@ theorem live_step (cfg : Cfg) (s : State) (e : Step) (i j : Nat) (hs : Safe s)
       have hsi := hs.insts inst (List.mem_of_getElem? hi)
       split
       · rename_i a q hpoll
-        intro _
-        refine prog_keep hi rfl (Nat.le_refl _) (fun r h _ => h) ?_ ?_
-        · simp [liveFree, pollHolds, hpoll]
-        · intro _ _ _; exact ⟨ha, fun c hc => by rw [hpoll] at hc; cases hc⟩
+        split
+        · intro _
+          refine prog_keep hi rfl (Nat.le_refl _) (fun r h _ => h) ?_ ?_
+          · simp [liveFree, pollHolds, hpoll]
+          · intro _ _ _; exact ⟨ha, fun c hc => by rw [hpoll] at hc; cases hc⟩
+        · intro _
+          refine prog_keep hi rfl (Nat.le_refl _) (fun r h _ => h) ?_ ?_
+          · simp [liveFree, pollHolds, hpoll]
+          · intro _ _ _; exact ⟨ha, fun c hc => by rw [hpoll] at hc; cases hc⟩
       · rename_i a q hpoll
         split
         · rename_i rows' hdel
@@ -466,7 +476,9 @@ theorem live_step (cfg : Cfg) (s : State) (e : Step) (i j : Nat) (hs : Safe s)
           by_cases hj : a = j
           · subst hj
             left
-            exact ((hsi.run _ _ hpoll).2 rfl a q rfl).mono hext
+            rcases (hsi.run _ _ hpoll).2 rfl a q rfl with h | h
+            · exact h.mono hext
+            · exact absurd h hgood
           · refine prog_keep hi rfl ?_ (fun r h _ => by rw [del_other hdel hj]; exact h) ?_ ?_
             · simp only [uncaptured, del_other hdel hj]; exact Nat.le_refl _
             · have : liveFree j { inst with poll := if q = [] then .idle else .running q false } = liveFree j inst := by
@@ -511,7 +523,7 @@ theorem WasCommitted.row {s : State} {j : Nat} (h : WasCommitted s j) : ∃ r, s
   exact ⟨r, hr⟩
 
 /-- over an arbitrary segment slack grows at most by the number of abandoning steps -/
-theorem slack_run (cfg : Cfg) (j : Nat) : ∀ (l : List Step) (s : State), Safe s → WasCommitted s j →
+theorem slack_run (cfg : Cfg) (j : Nat) (hgood : j ∉ cfg.bad) : ∀ (l : List Step) (s : State), Safe cfg s → WasCommitted s j →
     Invoked (run cfg s l) j ∨ slack (run cfg s l) j ≤ slack s j + abandons cfg s l := by
   intro l
   induction l with
@@ -520,7 +532,7 @@ theorem slack_run (cfg : Cfg) (j : Nat) : ∀ (l : List Step) (s : State), Safe 
     intro s hs hw
     simp only [run, abandons]
     have hext := step_ext cfg s e
-    rcases live_step cfg s e 0 j hs hw.row with h | ⟨h, _⟩
+    rcases live_step cfg s e 0 j hs hgood hw.row with h | ⟨h, _⟩
     · exact Or.inl (h.mono (run_ext cfg es _))
     · rcases ih _ (safe_step cfg s e hs) (hw.mono hext) with h2 | h2
       · exact Or.inl h2
@@ -530,10 +542,10 @@ theorem slack_run (cfg : Cfg) (j : Nat) : ∀ (l : List Step) (s : State), Safe 
 def PassInv (i j : Nat) (s : State) (c : Nat) : Prop :=
   Invoked s j ∨ slack s j + 1 ≤ c ∨ (slack s j ≤ c ∧ OnTrack i j s)
 
-theorem passInv_step (cfg : Cfg) (s : State) (e : Step) (i j c : Nat) (hs : Safe s)
+theorem passInv_step (cfg : Cfg) (s : State) (e : Step) (i j c : Nat) (hs : Safe cfg s) (hgood : j ∉ cfg.bad)
     (hrow : ∃ r, s.rows[j]? = some r) (h : PassInv i j s c) :
     PassInv i j (step cfg s e) (c + (if abandonStep s e then 1 else 0)) := by
-  rcases live_step cfg s e i j hs hrow with hp | ⟨h1, h2⟩
+  rcases live_step cfg s e i j hs hgood hrow with hp | ⟨h1, h2⟩
   · exact Or.inl hp
   · rcases h with h | h | ⟨h, hot⟩
     · exact Or.inl (h.mono (step_ext cfg s e))
@@ -542,7 +554,7 @@ theorem passInv_step (cfg : Cfg) (s : State) (e : Step) (i j c : Nat) (hs : Safe
       · right; right; exact ⟨by omega, h3⟩
       · right; left; omega
 
-theorem passInv_run (cfg : Cfg) (i j : Nat) : ∀ (l : List Step) (s : State) (c : Nat), Safe s →
+theorem passInv_run (cfg : Cfg) (i j : Nat) (hgood : j ∉ cfg.bad) : ∀ (l : List Step) (s : State) (c : Nat), Safe cfg s →
     WasCommitted s j → PassInv i j s c → PassInv i j (run cfg s l) (c + abandons cfg s l) := by
   intro l
   induction l with
@@ -551,13 +563,13 @@ theorem passInv_run (cfg : Cfg) (i j : Nat) : ∀ (l : List Step) (s : State) (c
     intro s c hs hw h
     simp only [run, abandons]
     have := ih _ _ (safe_step cfg s e hs) (hw.mono (step_ext cfg s e))
-      (passInv_step cfg s e i j c hs hw.row h)
+      (passInv_step cfg s e i j c hs hgood hw.row h)
     rw [Nat.add_assoc] at this
     exact this
 
 /-- every fair pass either invokes `j` or uses up one unit of slack -/
-theorem pass_step (cfg : Cfg) (hb : cfg.batch = none) (j : Nat) (s : State) (p : List Step)
-    (hs : Safe s) (hp : FairPass cfg j s p) :
+theorem pass_step (cfg : Cfg) (hb : cfg.batch = none) (j : Nat) (hgood : j ∉ cfg.bad) (s : State) (p : List Step)
+    (hs : Safe cfg s) (hp : FairPass cfg j s p) :
     Invoked (run cfg s p) j ∨ slack (run cfg s p) j + 1 ≤ slack s j + abandons cfg s p := by
   obtain ⟨i, inst, inst', mid, rfl, hi, ha, hidle, hready, hi', ha', hidle'⟩ := hp
   rcases hready with hinv | ⟨r, hr, hel⟩
@@ -586,11 +598,11 @@ theorem pass_step (cfg : Cfg) (hb : cfg.batch = none) (j : Nat) (s : State) (p :
       simp only [setInst, List.getElem?_set_self hlt, Option.some.injEq] at hy
       subst hy
       exact ⟨_, r, rfl, hr, hv, mem_selectCands_nobatch hb hr hel⟩
-    have hs1 : Safe (setInst s i { inst with poll := .selected (selectCands cfg s.clock s.rows) }) := by
+    have hs1 : Safe cfg (setInst s i { inst with poll := .selected (selectCands cfg s.clock s.rows) }) := by
       rw [← hstep]; exact safe_step cfg s _ hs
     have hw1 : WasCommitted (setInst s i { inst with poll := .selected (selectCands cfg s.clock s.rows) }) j :=
       ⟨r, hr, Or.inl hv⟩
-    have := passInv_run cfg i j mid _ _ hs1 hw1 (Or.inr (Or.inr ⟨Nat.le_refl _, hot⟩))
+    have := passInv_run cfg i j hgood mid _ _ hs1 hw1 (Or.inr (Or.inr ⟨Nat.le_refl _, hot⟩))
     rw [hsl] at this
     rcases this with h | h | ⟨_, h⟩
     · exact Or.inl h
@@ -600,16 +612,16 @@ theorem pass_step (cfg : Cfg) (hb : cfg.batch = none) (j : Nat) (s : State) (p :
       cases hsel
 
 /-- `k` fair passes without an invocation need `k + 1` units of slack + abandoned loops -/
-theorem fairPasses_bound (cfg : Cfg) (hb : cfg.batch = none) (j : Nat) {k : Nat} {s : State}
-    {steps : List Step} (hf : FairPasses cfg j k s steps) : Safe s → WasCommitted s j →
+theorem fairPasses_bound (cfg : Cfg) (hb : cfg.batch = none) (j : Nat) (hgood : j ∉ cfg.bad) {k : Nat} {s : State}
+    {steps : List Step} (hf : FairPasses cfg j k s steps) : Safe cfg s → WasCommitted s j →
     Invoked (run cfg s steps) j ∨ k = 0 ∨ k + 1 ≤ slack s j + abandons cfg s steps := by
   induction hf with
   | zero s steps => intro _ _; exact Or.inr (Or.inl rfl)
   | succ k s pre p post hp _ ih =>
     intro hs hw
-    have hs1 : Safe (run cfg s pre) := run_inv cfg (fun s e h => safe_step cfg s e h) pre s hs
+    have hs1 : Safe cfg (run cfg s pre) := run_inv cfg (fun s e h => safe_step cfg s e h) pre s hs
     have hw1 : WasCommitted (run cfg s pre) j := hw.mono (run_ext cfg pre s)
-    have hs2 : Safe (run cfg s (pre ++ p)) := run_inv cfg (fun s e h => safe_step cfg s e h) _ s hs
+    have hs2 : Safe cfg (run cfg s (pre ++ p)) := run_inv cfg (fun s e h => safe_step cfg s e h) _ s hs
     have hw2 : WasCommitted (run cfg s (pre ++ p)) j := hw.mono (run_ext cfg _ s)
     have e2 : run cfg s (pre ++ p) = run cfg (run cfg s pre) p := run_append cfg s pre p
     have hend : run cfg s (pre ++ p ++ post) = run cfg (run cfg s (pre ++ p)) post :=
@@ -625,15 +637,15 @@ theorem fairPasses_bound (cfg : Cfg) (hb : cfg.batch = none) (j : Nat) {k : Nat}
     rcases ih hs2 hw2 with h | h | h
     · exact Or.inl h
     · -- no further pass: this one alone
-      rcases slack_run cfg j pre s hs hw with h1 | h1
+      rcases slack_run cfg j hgood pre s hs hw with h1 | h1
       · exact Or.inl (h1.mono (Ext.trans (run_ext cfg p _) (by rw [← e2]; exact run_ext cfg post _)))
-      · rcases pass_step cfg hb j _ p hs1 hp with h2 | h2
+      · rcases pass_step cfg hb j hgood _ p hs1 hp with h2 | h2
         · exact Or.inl (by rw [← e2] at h2; exact h2.mono (run_ext cfg post _))
         · rw [← e2] at h2
           right; right; omega
-    · rcases slack_run cfg j pre s hs hw with h1 | h1
+    · rcases slack_run cfg j hgood pre s hs hw with h1 | h1
       · exact Or.inl (h1.mono (Ext.trans (run_ext cfg p _) (by rw [← e2]; exact run_ext cfg post _)))
-      · rcases pass_step cfg hb j _ p hs1 hp with h2 | h2
+      · rcases pass_step cfg hb j hgood _ p hs1 hp with h2 | h2
         · exact Or.inl (by rw [← e2] at h2; exact h2.mono (run_ext cfg post _))
         · rw [← e2] at h2
           right; right; omega
@@ -669,7 +681,7 @@ theorem step_insts_length (cfg : Cfg) (s : State) (e : Step) :
       split
       · split
         · split <;> simp [setInst]
-        · simp
+        · split <;> simp [setInst]
         · split <;> simp [setInst]
       · rfl
   | pollSelect i =>
@@ -691,7 +703,7 @@ theorem step_insts_length (cfg : Cfg) (s : State) (e : Step) :
     apply onInst_cases (P := fun x => x.insts.length = s.insts.length)
     · rfl
     · intro _ _ _; split
-      · simp
+      · split <;> simp [setInst]
       · split <;> simp [setInst]
       · rfl
   | crash i =>
@@ -705,5 +717,134 @@ theorem run_insts_length (cfg : Cfg) (n : Nat) (steps : List Step) :
   have := run_inv (P := fun s => s.insts.length = n) cfg
     (fun s e h => by rw [step_insts_length]; exact h) steps (init n) (by simp [init])
   exact this
+
+/-! ## a job that cannot be prepared is never invoked -/
+
+def NoBadInvoked (cfg : Cfg) (s : State) : Prop :=
+  ∀ j t i, Ev.invoked j t i ∈ s.trace → j ∉ cfg.bad
+
+theorem noBad_step (cfg : Cfg) (s : State) (e : Step) (h : NoBadInvoked cfg s) :
+    NoBadInvoked cfg (step cfg s e) := by
+  cases e with
+  | schedule k ra key tx =>
+    simp only [step, stepSchedule]
+    apply onInst_cases (P := NoBadInvoked cfg)
+    · exact h
+    · intro _ _ _; exact h
+  | scheduleBad k => exact h
+  | commit tx => exact h
+  | rollback tx => exact h
+  | tick n => exact h
+  | pop k =>
+    simp only [step, stepPop]
+    apply onInst_cases (P := NoBadInvoked cfg)
+    · exact h
+    · intro _ _ _
+      split
+      · split
+        · exact h
+        · exact h
+      · exact h
+  | task k j0 =>
+    simp only [step, stepTask]
+    apply onInst_cases (P := NoBadInvoked cfg)
+    · exact h
+    · intro _ _ _
+      split
+      · split
+        · split
+          · intro j t i hm
+            simp only [List.mem_cons] at hm
+            rcases hm with hm | hm
+            · cases hm
+            · exact h j t i hm
+          · exact h
+        · split
+          · exact h
+          · rename_i hb
+            intro j t i hm
+            simp only [List.mem_cons] at hm
+            rcases hm with hm | hm
+            · cases hm; simpa using hb
+            · exact h j t i hm
+        · split
+          · intro j t i hm
+            simp only [List.mem_cons] at hm
+            rcases hm with hm | hm
+            · cases hm
+            · exact h j t i hm
+          · exact h
+      · exact h
+  | pollSelect k =>
+    simp only [step, stepPollSelect]
+    apply onInst_cases (P := NoBadInvoked cfg)
+    · exact h
+    · intro _ _ _; split
+      · exact h
+      · exact h
+  | pollCapture k =>
+    simp only [step, stepPollCapture]
+    apply onInst_cases (P := NoBadInvoked cfg)
+    · exact h
+    · intro _ _ _; split
+      · intro j t i hm
+        simp only [List.mem_append, List.mem_reverse, List.mem_map] at hm
+        rcases hm with ⟨_, _, hm⟩ | hm
+        · cases hm
+        · exact h j t i hm
+      · exact h
+  | pollNext k =>
+    simp only [step, stepPollNext]
+    apply onInst_cases (P := NoBadInvoked cfg)
+    · exact h
+    · intro _ _ _; split
+      · split
+        · exact h
+        · rename_i hb
+          intro j t i hm
+          simp only [List.mem_cons] at hm
+          rcases hm with hm | hm
+          · cases hm; simpa using hb
+          · exact h j t i hm
+      · split
+        · intro j t i hm
+          simp only [List.mem_cons] at hm
+          rcases hm with hm | hm
+          · cases hm
+          · exact h j t i hm
+        · exact h
+      · exact h
+  | crash k =>
+    simp only [step, stepCrash]
+    split
+    · exact h
+    · exact h
+
+theorem noBad_reachable (cfg : Cfg) (n : Nat) (steps : List Step) : NoBadInvoked cfg (run cfg (init n) steps) :=
+  run_inv cfg (fun s e h => noBad_step cfg s e h) steps _ (by intro j t i hm; simp [init] at hm)
+
+/-! ## the three shapes of a `pollNext` step -/
+
+theorem pollNext_bad_head (cfg : Cfg) (s : State) (i a : Nat) (q : List Nat) (inst : Inst)
+    (hi : s.insts[i]? = some inst) (ha : inst.alive = true) (hp : inst.poll = .running (a :: q) false)
+    (hbad : a ∈ cfg.bad) :
+    step cfg s (.pollNext i) = setInst s i { inst with poll := .running (a :: q) true } := by
+  simp [step, stepPollNext, onInst, hi, ha, hp, hbad]
+
+theorem pollNext_good_head (cfg : Cfg) (s : State) (i a : Nat) (q : List Nat) (inst : Inst)
+    (hi : s.insts[i]? = some inst) (ha : inst.alive = true) (hp : inst.poll = .running (a :: q) false)
+    (hgood : a ∉ cfg.bad) :
+    step cfg s (.pollNext i) =
+      { s with trace := .invoked a s.clock i :: s.trace
+               insts := s.insts.set i { inst with poll := .running (a :: q) true } } := by
+  simp [step, stepPollNext, onInst, hi, ha, hp, hgood]
+
+theorem pollNext_delete (cfg : Cfg) (s : State) (i a : Nat) (q : List Nat) (inst : Inst) (rows' : List Row)
+    (hi : s.insts[i]? = some inst) (ha : inst.alive = true) (hp : inst.poll = .running (a :: q) true)
+    (hdel : del s.rows a = some rows') :
+    step cfg s (.pollNext i) =
+      { s with rows := rows', trace := .deleted a s.clock i :: s.trace
+               insts := s.insts.set i { inst with poll := if q = [] then .idle else .running q false } } := by
+  simp [step, stepPollNext, onInst, hi, ha, hp, hdel]
 
 end Mistral.Sched
